@@ -5,6 +5,9 @@ object *obs = ({ 0, 0, 0, 0 });
 mapping refmap = ([]);
 object ref0, ref1, ref2, ref3;
 int nclone = 0;
+string *names = ({ "p", "q" });     // living names (the harness picks two that collide in the living hash)
+void set_names(string a, string b) { names = ({ a, b }); }
+string lname(int id) { return names[id & 1]; }
 
 void create() { seteuid(getuid(this_object())); }
 void add(mixed *e) { log += ({ e }); }
@@ -68,7 +71,7 @@ void perform(int who, int s) {
       break;
     case 4: f = a ? "/c08/b" : "/c08/a"; add(({ "load-begin", who, f })); load_object(f); add(({ "load-end", who, f })); break;
     case 5: add(({ "clone-begin", who, "/c08/a" })); clone_object("/c08/a"); add(({ "clone-end", who, "/c08/a" })); break;
-    case 6: x = ob(who); if (x) { x->raw_living(); add(({ "living", who, (who & 1) ? "q" : "p" })); } break;
+    case 6: x = ob(who); if (x) { x->raw_living(lname(who)); add(({ "living", who, lname(who) })); } break;
     case 7: x = ob(who); if (x) { x->raw_timers(); add(({ "timers", who })); } break;
     case 8: x = ob(who); if (x) { add(({ "cmd-begin", who })); a = x->raw_command(); add(({ "cmd-end", who, a })); } break;
   }
